@@ -120,12 +120,12 @@ func runC19R2(c *Ctx, r *Rep) {
 }
 
 func runC19R3(c *Ctx, r *Rep) {
-	fd := c.FuncDecl("py", "ImportModuleLevelObject")
+	p := c.MustPkg("py")
+	fd, root := c.ExpandAlias(p, c.FuncDecl("py", "ImportModuleLevelObject"))
 	if fd == nil || fd.Body == nil {
 		r.undecided("import|py.ImportModuleLevelObject", token.NoPos, "anchor function not found")
 		return
 	}
-	p := c.MustPkg("py")
 	r.analysed("py.ImportModuleLevelObject")
 	var nameObj types.Object
 	for _, f := range fd.Type.Params.List {
@@ -143,7 +143,7 @@ func runC19R3(c *Ctx, r *Rep) {
 	ast.Inspect(fd.Body, func(n ast.Node) bool {
 		if as, ok := n.(*ast.AssignStmt); ok {
 			for _, l := range as.Lhs {
-				if id, ok := l.(*ast.Ident); ok && p.TypesInfo.Uses[id] == nameObj {
+				if id, ok := l.(*ast.Ident); ok && p.TypesInfo.Uses[id] != nil && root(p.TypesInfo.Uses[id]) == nameObj {
 					reassigned = as.Pos()
 				}
 			}
@@ -178,7 +178,7 @@ func runC19R3(c *Ctx, r *Rep) {
 		if fn := Callee(p.TypesInfo, call); fn != nil && (fn.Name() == "RunFile" || fn.Name() == "RunCode") && len(call.Args) == 4 && fn.Type().(*types.Signature).Recv() == nil {
 			found = true
 			id, ok := call.Args[3].(*ast.Ident)
-			r.check(ok && p.TypesInfo.Uses[id] == nameObj, "import|file module registered under the imported name", call.Pos(),
+			r.check(ok && p.TypesInfo.Uses[id] != nil && root(p.TypesInfo.Uses[id]) == nameObj, "import|file module registered under the imported name", call.Pos(),
 				fn.Name()+" receives the imported name as the module name",
 				fn.Name()+" is given `"+exprStr(call.Args[3])+"` as the module name, not the imported name: the module is registered (and gets __name__) under a key the store lookup never uses")
 		}
@@ -202,7 +202,7 @@ func runC19R3(c *Ctx, r *Rep) {
 }
 
 func runC19R4(c *Ctx, r *Rep) {
-	fd := c.FuncDecl("vm", "do_IMPORT_STAR")
+	fd := c.FuncDeclX("vm", "do_IMPORT_STAR")
 	if fd == nil || fd.Body == nil {
 		r.undecided("star|vm.do_IMPORT_STAR", token.NoPos, "anchor function not found")
 		return
